@@ -12,7 +12,9 @@ RULE = ("image descriptions DESC built from text, escapes, named/numeric referen
         "attribute equals the tag-stripped text of the paragraph rendering (nested images contribute their own alt). "
         "Non-trivial = DESC contains an escape, reference, break or nested construct; distinct = distinct DESC.")
 ATOMS = ["a", "b c", "é", "\\*", "\\\\", "\\[", "\\]", "&amp;", "&lt;", "&#65;", "&#x263A;", "&quot;", "&#0;", "*e*", "**s**", "_u_", "`c`", "`` `x` ``", "~~d~~", "[l](/u)", "[l2](/u 't')",
-         "![i](/v)", "![*j*](/w)", "2 * 3", "snake_case_name", "a*b", "**", "_", "~", "<http://x.y>", "!", "x &amp; y", "&nbsp;", "\\&amp;", "&copy;", "a\0b", "\0", "\0\0 z"]
+         "![i](/v)", "![*j*](/w)", "2 * 3", "snake_case_name", "a*b", "**", "_", "~", "<http://x.y>", "!", "x &amp; y", "&nbsp;", "\\&amp;", "&copy;", "a\0b", "\0", "\0\0 z",
+         # raw inline HTML (shown as markup with the html plugin, as text without): never part of the alt text as markup (seed C18-9)
+         "<b>bold</b>", "<!-- c -->", "<br/>", "<i class=\"k\">x</i>", "about ~5 km", "1 _ 2"]
 BREAKS = ["\n", "  \n", "\\\n", "\\\n\\\n", "   \n", "\\\n  \n"]
 
 
@@ -38,7 +40,7 @@ def deep(n):
 def cases(rng, tier, Case):
     res = []
     n = 900 if tier == "quick" else 40000
-    descs = ["nul \0 in alt", "a \\* &amp; b\nc", "2 * 3 = 6", "snake_case", "a\\\n\\\nb", "before " + deep(40) + " after", "x ![y ![z](1)](2) w", "*a **b** c*", "`a`*b*", "~~[]~~~~"]
+    descs = ["a <b>bold</b> c", "x <!-- c --> y", "2 * 3 = 6 <br/>", "about ~5 km", "nul \0 in alt", "a \\* &amp; b\nc", "2 * 3 = 6", "snake_case", "a\\\n\\\nb", "before " + deep(40) + " after", "x ![y ![z](1)](2) w", "*a **b** c*", "`a`*b*", "~~[]~~~~"]
     if tier != "quick":
         descs += ["before " + deep(300) + " after", "*a " * 200 + "b" + " a*" * 200]
     else:
@@ -49,8 +51,11 @@ def cases(rng, tier, Case):
         d = mdgen.clean_utf8(d).strip()
         if not d or re.search(r"\n[ \t]*\n", d):
             continue
-        res.append(Case("parse Cs 100 TR %s" % hx("![" + d + "](x)"), "image", {"src": hx(d)}, compare=len(d) < 700))
-        res.append(Case("parse Cs 100 TR %s" % hx("> - ![" + d.replace("\n", " ") + "][r]\n\n[r]: /y 't'"), "image-ref", {"src": hx(d)}))
+        # plugin sets: with the html plugin; the image rule registered BEFORE the first emphasis-like plugin (the clean-up
+        # pass that turns unmatched delimiters back into text is then registered after it -- seed C18-10)
+        cfg = rng.choice(["Cs", "Cs", "CsW", "CsW", "nebliatcfqhurHLpms", "pims", "nebliatcfqhurHLpsW", "ipnem", "lipsm"])
+        res.append(Case("parse %s 100 TR %s" % (cfg, hx("![" + d + "](x)")), "image", {"src": hx(d)}, compare=len(d) < 700))
+        res.append(Case("parse %s 100 TR %s" % (cfg, hx("> - ![" + d.replace("\n", " ") + "][r]\n\n[r]: /y 't'")), "image-ref", {"src": hx(d)}))
     # what stands BEFORE the image in the paragraph must not change how its description is read (seed C18-7: delimiter
     # bookkeeping of the paragraph leaking into the description): descriptions with a known display text behind prefixes
     # full of unmatched delimiters
